@@ -27,6 +27,7 @@ class CuckooWorld(Scenario):
     prop = "C00"
     max_steps = 40
     allow_restart = False
+    allow_huge = False  # tables above 65536 slots (export/load work in blocks): C05 only, they are slow
     fanout_cap = 6  # per run
     counting_choices = (False, True)
 
@@ -58,6 +59,9 @@ class CuckooWorld(Scenario):
         if os.environ.get("DSIM_TIER") == "thorough" and rng.chance(1, 4):
             cfg.update({"capacity": rng.choice((16, 24, 40)), "universe": rng.choice((100, 200, 400)),
                         "steps": rng.between(60, 160)})
+        if self.allow_huge and rng.chance(1, 150 if os.environ.get("DSIM_TIER") != "thorough" else 60):
+            cfg.update({"capacity": rng.choice((17000, 22000)), "bucket_size": 4, "universe": 400, "steps": rng.between(20, 40),
+                        "fanout": False, "fan_all": False, "huge": True})
         if cfg["fault_free"]:
             # fault-free configuration: a table large enough that no insertion needs a kick
             cfg["capacity"] = 64
